@@ -152,7 +152,7 @@ package task
 // releaseTask: a task owned by ANOTHER environment is refused and left untouched; otherwise it becomes unowned.
 // Frame: nothing but this task's parent link is written.
 //@ func (m *Manager) releaseTask(envId uid.ID, task *Task) (err error)
-//@   property C04
+//@   property C04 C06
 //@   opt strings=uf
 //@   modifies task.parent
 //@   ensures task != nil && old(locked(task)) && old(envOfRole(task.parent)) != envId ==> err != nil && task.parent == old(task.parent)
@@ -400,3 +400,15 @@ package task
 //@   ensures has == any
 //@   ensures !has && m != nil ==> n == len(m)
 //@   loop 1 invariant #i >= -1 && #i < len(m) && !any && !has && n == #i + 1
+
+// ---------------------------------------------------------------------------------------------------------
+// C06: releasing an environment's tasks asks releaseTask for every task of the list, for that environment, and reports
+// once (the environment manager's teardown waits for that report).
+//@ func (m *Manager) releaseTasks(envId uid.ID, tasks Tasks) (err error)
+//@   property C06
+//@   ghostvar n int = 0
+//@   ghostvar sent int = 0
+//@   on call (*Manager).releaseTask : assert arg1 == envId && arg2 == tasks[#i + 1] && sent == 0 ; n = n + 1
+//@   on send * : assert n == len(tasks) ; sent = sent + 1
+//@   loop 1 invariant n == #i + 1 && #i >= -1 && #i < len(tasks) && sent == 0
+//@   ensures n == len(tasks) && sent == 1
